@@ -1,7 +1,28 @@
-import AslModel.Lemmas.SymLoc
+import AslModel.Lemmas.SymLocFirst
 /-! C13, macro-local label spaces: property theorems over `Model/SymLoc.lean` (handle stack of `asmpars.c`, handle
 discipline of the construct processors of `as.c`).  Unbounded: any program tree (any nesting depth, any number of
-iterations, with / without GLOBALSYMBOLS, WHILE or not), any state. -/
+iterations, with / without GLOBALSYMBOLS, WHILE or not), any state.
+
+The full statement (second half of the file): **for every program tree and every start state with empty handle stack, the
+list of statements with the key each label is entered under and the key each reference is found under (`traceItems`,
+observation of `execItems` - `Model/SymLocObs.lean`) is the expansion `LocScope.expand` of the SPEC, `key` = the model's
+name folding, the handles of the iterations numbered in the order they were opened** - innermost enclosing expansion
+first, each expansion / iteration its own space, nothing leaks out of a finished expansion, GLOBALSYMBOLS bodies use the
+enclosing space.  It is proved (`C13_loc_refines`) for the pass structure the model has:
+
+* for every pass whose local table is *settled* (`settled`: it holds exactly the keys the pass enters its labels under) -
+  that is every pass after the first (`C13_loc_settled_next_pass`, `C13_loc_refines_later_pass`);
+* in the *first* pass the table is empty; the statement holds for every program in which no reference precedes the label of
+  its own body - the SPEC's own flag, `(expand ..).1` second components (`C13_loc_refines_first_pass`; technical hypothesis:
+  no `#` in a label name, which no symbol name can contain);
+* a reference that precedes the label of its own body cannot find it in the first pass: there the statement is false
+  (`C13_loc_refines_hypothesis_needed`; the known findings `forward-ref-in-macro-body-binds-outer-symbol-when-no-second-pass`
+  / `forward-ref-binds-outer-symbol-when-no-second-pass` are exactly this; `C13_finding_forward_ref_in_macro_body`);
+* where the SPEC reports a reference as left open by the manual (`dynamic`: a reference in a macro expansion to a label of
+  the body the macro was called from) the model resolves it like a loop body would (`C13_loc_refines_dynamic_scoping`:
+  macro calls read as loops of one iteration, no hypothesis about `dynamic`);
+* statements inside constructs are ordinary names (`PItems.ordinary`): temporary symbols (`$$x`, `.x`, `-`, `+`, `/`) in bodies
+  are outside the SPEC of the label spaces (`Spec/LocScope.lean`; the check reports them as `unspecified`). -/
 namespace AslModel.SymLoc
 open AslModel.Sym AslModel.Generated.Sym
 
@@ -127,5 +148,319 @@ example : findLocNode inside2 [110] = none := by decide
 example : findLocNode (pushFresh inside2) nm = some { val := 5, defined := true, changeable := false } := by decide
 example : findLocNode (pushFresh (pushLoc inside2 (-1))) nm = none := by decide
 end Examples
+
+/-! ## the run of the model is the SPEC's expansion -/
+
+/-! ### the observation (`Model/SymLocObs.lean`) says what the model does -/
+
+/-- **the observed label key is the key entered**: a statement changes the local table by the key `evOf` names (`dkey`) and
+by nothing else; `none`: the local table is left alone (the label, if any, goes to the global table) -/
+theorem C13_loc_obs_label (st : LSt) (o : Op) (k : Key) :
+    hasKey (stepL st o).ltab k = (hasKey st.ltab k || ((evOf st o).dkey == some k)) := stepL_hasKey st o k
+
+/-- **the observed reference key is the node `FindLocNode` answers with**: the reference has the value stored under `refKey`,
+the key lies in a space of the handle stack and the table holds it; `none`: `FindLocNode` finds nothing, the reference is
+an ordinary section / global lookup -/
+theorem C13_loc_obs_ref (st : LSt) (r : Name) :
+    (∀ key, refKey st r = some key →
+      key.2 ∈ st.mom :: st.conts ∧ ∃ e, tfind st.ltab key = some e ∧ lookupL st r = (st, e.val)) ∧
+    (refKey st r = none →
+      lookupL st r = ({ st with g := (Sym.lookupSymbol st.g r).1 }, (Sym.lookupSymbol st.g r).2)) := by
+  have hf := findLocNode_refSpace st r
+  constructor
+  · intro key hk
+    have hm := refKey_mem st r key hk
+    refine ⟨hm.1, ?_⟩
+    unfold refKey at hk
+    cases hs : refSpace st r with
+    | none => rw [hs] at hk; cases hk
+    | some h =>
+      rw [hs] at hk hf
+      simp only [Option.map_some, Option.some.injEq] at hk
+      subst hk
+      have hk2 := hm.2.1
+      unfold hasKey at hk2
+      cases he : tfind st.ltab (refName st r, h) with
+      | none => rw [he] at hk2; cases hk2
+      | some e =>
+        refine ⟨e, rfl, ?_⟩
+        apply C13_loc_lookup_local_first
+        rw [hf]
+        simpa using he
+  · intro hk
+    apply C13_loc_lookup_then_sections
+    rw [hf]
+    unfold refKey at hk
+    cases hs : refSpace st r with
+    | none => rfl
+    | some h => rw [hs] at hk; cases hk
+
+/-! ### every iteration its own space -/
+
+/-- **the handles given to iterations are pairwise different** (any program, any state): their position in the list of
+opened spaces is a numbering of the label spaces -/
+theorem C13_loc_spaces_distinct (q : Items) (st : LSt) : (openedItems q st).Nodup := openedItems_nodup q st
+
+/-- … so two spaces have the same number only when they are the same space -/
+theorem C13_loc_numbering_faithful (q : Items) (st : LSt) (h1 h2 : Int) (m1 : h1 ∈ openedItems q st)
+    (h : spaceNo (openedItems q st) h1 = spaceNo (openedItems q st) h2) : h1 = h2 := by
+  unfold spaceNo at h
+  have := List.getElem_idxOf (List.idxOf_lt_length_of_mem m1)
+  rw [← this]
+  simp only [h]
+  exact List.getElem_idxOf _
+
+/-- … and every key a run from an empty handle stack enters a label under or finds a reference under carries one of these
+handles (the numbering speaks about every space the statements use) -/
+theorem C13_loc_handles_opened (q : Items) (st : LSt) (hm : st.mom = -1) (hc : st.conts = []) :
+    ∀ e ∈ traceItems q st, ∀ key, (e.dkey = some key ∨ e.rkey = some key) → key.2 ∈ openedItems q st := by
+  intro e he key hk
+  have h := traceItems_handles q [] st (by intro x hx; left; simpa [hm, hc] using hx) e he key.2 (by
+    unfold evHandles
+    cases hk with
+    | inl h1 => simp [h1]
+    | inr h1 => simp [h1])
+  simpa using h
+
+/-! ### the refinement -/
+
+/-- **`C13_loc_refines`: the model's run is the SPEC's expansion.**  For every program tree `p` and every state at the
+start of a pass (empty handle stack) whose local table is settled, the statements of the run with the keys the model
+entered / found (`traceItems`), the handle of each space written as its number, are exactly the statements `LocScope.expand`
+produces with `key` = the model's name folding - provided the SPEC does not report a reference as left open (`dynamic`;
+without this proviso: `C13_loc_refines_dynamic_scoping`). -/
+theorem C13_loc_refines (p : PItems) (st : LSt) (hm : st.mom = -1) (hc : st.conts = [])
+    (hord : p.ordinary false = true) (hset : settled p.toModel st = true)
+    (hnd : (LocScope.expand (fold st.g.cs) (p.toSpec true)).2 = false) :
+    (traceItems p.toModel st).map (render (openedItems p.toModel st)) =
+      (LocScope.expand (fold st.g.cs) (p.toSpec true)).1.map (·.1) := by
+  rw [← expand_erase _ p hnd]
+  exact refines_settled p st hm hc hord hset
+
+/-- **the model scopes dynamically**: with macro expansions read as what they are for the handle stack - loops of one
+iteration - the refinement holds without any proviso about `dynamic`: *a reference inside an inner expansion to a name only
+the outer expansion defines finds the outer one*, across macro calls as well -/
+theorem C13_loc_refines_dynamic_scoping (p : PItems) (st : LSt) (hm : st.mom = -1) (hc : st.conts = [])
+    (hord : p.ordinary false = true) (hset : settled p.toModel st = true) :
+    (traceItems p.toModel st).map (render (openedItems p.toModel st)) =
+      (LocScope.expand (fold st.g.cs) (p.toSpec false)).1.map (·.1) :=
+  refines_settled p st hm hc hord hset
+
+/-- **the first pass** (local table empty): the run is the SPEC's expansion whenever the SPEC flags no reference as preceding
+the label of its own body (second components of `expand`'s list; where it does flag one the statement is false:
+`C13_loc_refines_hypothesis_needed`) -/
+theorem C13_loc_refines_first_pass (p : PItems) (st : LSt) (hm : st.mom = -1) (hc : st.conts = []) (ht : st.ltab = [])
+    (hord : p.ordinary false = true) (hnh : p.noHash = true)
+    (hnd : (LocScope.expand (fold st.g.cs) (p.toSpec true)).2 = false)
+    (hnf : ∀ x ∈ (LocScope.expand (fold st.g.cs) (p.toSpec true)).1, x.2 = false) :
+    (traceItems p.toModel st).map (render (openedItems p.toModel st)) =
+      (LocScope.expand (fold st.g.cs) (p.toSpec true)).1.map (·.1) := by
+  rw [← expand_erase _ p hnd] at hnf ⊢
+  exact refines_first p st hm hc ht hord hnh hnf
+
+/-- **a pass leaves a settled table for the next one** (the pass loop of `assembleL`: `exitPassL`, then `initPassL`): after a
+pass that started with an empty local table or with a settled one, the next pass over the same program starts settled -/
+theorem C13_loc_settled_next_pass (p : PItems) (st : LSt) (line0 : Nat) (hc : st.conts = []) (hord : p.ordinary false = true)
+    (h : st.ltab = [] ∨ settled p.toModel (initPassL st line0) = true) :
+    settled p.toModel (initPassL (exitPassL (execItems p.toModel (initPassL st line0))) line0) = true ∧
+      (exitPassL (execItems p.toModel (initPassL st line0))).conts = [] :=
+  settled_next_pass p st line0 hc hord h
+
+/-- **every pass after the first refines the SPEC**: start from any state with empty handle stack and empty local table
+(`AssembleFile` before the first pass), run any number `n + 1` of passes, and the next pass is the SPEC's expansion -/
+theorem C13_loc_refines_later_pass (p : PItems) (st : LSt) (line0 n : Nat) (hc : st.conts = []) (ht : st.ltab = [])
+    (hord : p.ordinary false = true) (hnd : (LocScope.expand (fold st.g.cs) (p.toSpec true)).2 = false) :
+    (traceItems p.toModel (initPassL (afterPasses p line0 (n + 1) st) line0)).map
+        (render (openedItems p.toModel (initPassL (afterPasses p line0 (n + 1) st) line0))) =
+      (LocScope.expand (fold st.g.cs) (p.toSpec true)).1.map (·.1) := by
+  have hs := afterPasses_settled p line0 hord n st hc (Or.inl ht)
+  have hcs := afterPasses_cs p line0
+  have hcs1 : (initPassL (afterPasses p line0 (n + 1) st) line0).g.cs = st.g.cs := by
+    have : (initPassL (afterPasses p line0 (n + 1) st) line0).g.cs = (afterPasses p line0 (n + 1) st).g.cs := by
+      simp [initPassL, initPass]
+    rw [this, hcs]
+  have := C13_loc_refines p (initPassL (afterPasses p line0 (n + 1) st) line0) rfl (by simpa [initPassL] using hs.2) hord hs.1
+    (by rw [hcs1]; exact hnd)
+  rw [hcs1] at this
+  exact this
+
+/-! ### the corollaries the property names -/
+
+/-- **(a) each iteration its own space**: inside a construct without GLOBALSYMBOLS every key one iteration enters a label
+under carries a smaller handle than every key of the iterations that follow - no two iterations share a local label -/
+theorem C13_loc_iterations_disjoint (body : PItems) (n : Nat) (first : Bool) (st : LSt) (hord : body.ordinary true = true) :
+    ∀ k1 ∈ labelKeys body.toModel (iterOpen false first st),
+      ∀ k2 ∈ obsLoop false (execItems body.toModel) (labelKeys body.toModel) (fun _ => []) n false
+          (execItems body.toModel (iterOpen false first st)),
+        k1.2 < k2.2 := by
+  intro k1 h1 k2 h2
+  have hne := iterOpen_mom_ne first st
+  have hkb := items_keys st.g.cs body (iterOpen false first st) (WF_iterOpen first st) (by rw [iterOpen_g])
+    (by rw [bne_of_ne hne]; exact hord)
+  have hb := hkb.below (WF_iterOpen first st) (execItems_cnt_ge _ _) k1 h1
+  have hr := loop_keys_fresh st.g.cs body (items_keys st.g.cs body) hord n false
+    (execItems body.toModel (iterOpen false first st)) (by rw [execItems_cs, iterOpen_g]) k2 h2
+  omega
+
+/-- **(a) two expansions never share a local label**: the keys of any piece of program (an expansion of a macro, say) carry
+smaller handles than the keys of any construct without GLOBALSYMBOLS that runs later (another expansion of the same macro),
+whatever stands between them -/
+theorem C13_loc_expansions_disjoint (i1 : PItem) (mid : PItems) (m wh : Bool) (n : Nat) (body : PItems) (st : LSt)
+    (hwf : st.mom < (st.cnt : Int)) (hord1 : i1.ordinary (st.mom != -1) = true) (hord : body.ordinary true = true) :
+    ∀ k1 ∈ keysItem i1.toModel st,
+      ∀ k2 ∈ keysItem (PItem.con m wh false n body).toModel (execItems mid.toModel (execItem i1.toModel st)),
+        k1.2 < k2.2 := by
+  intro k1 h1 k2 h2
+  have hk1 := (item_keys st.g.cs i1 st hwf rfl hord1).below hwf (execItem_cnt_ge _ _) k1 h1
+  have hc := execItems_cnt_ge mid.toModel (execItem i1.toModel st)
+  simp only [PItem.toModel, keysItem_con] at h2
+  have hr := loop_keys_fresh st.g.cs body (items_keys st.g.cs body) hord n true
+    (execItems mid.toModel (execItem i1.toModel st)) (by rw [execItems_cs, execItem_cs]) k2 h2
+  omega
+
+/-- **(b) a local label is not visible after its expansion ended**: every label of a construct without GLOBALSYMBOLS lies
+under a handle that did not exist before the construct, and a reference behind the construct - on whatever nesting level -
+finds only keys under handles that existed before it -/
+theorem C13_loc_not_visible_after (m wh : Bool) (n : Nat) (body : PItems) (st : LSt)
+    (hb : ∀ h ∈ st.mom :: st.conts, h < (st.cnt : Int)) (hord : body.ordinary true = true) (r : Name) :
+    (∀ k ∈ keysItem (PItem.con m wh false n body).toModel st, (st.cnt : Int) ≤ k.2) ∧
+      (∀ key, refKey (execItem (PItem.con m wh false n body).toModel st) r = some key → key.2 < (st.cnt : Int)) := by
+  constructor
+  · intro k hk
+    simp only [PItem.toModel, keysItem_con] at hk
+    exact (loop_keys_fresh st.g.cs body (items_keys st.g.cs body) hord n true st rfl k hk).1
+  · intro key hk
+    have hm := (refKey_mem _ r key hk).1
+    rw [(execItem_frame _ st).mom, (execItem_frame _ st).conts] at hm
+    exact hb _ hm
+
+/-- **(c) a reference inside an inner expansion to a name only the outer expansion defines finds the outer one**: when a
+space is opened on top of a space that holds the name (`pushFresh`: a macro call, the first iteration of a loop) and the
+statements run so far in the new space (any `pre`) did not define the name there, the reference finds the outer space's
+entry - also across a macro call (the handle stack knows no call boundary) -/
+theorem C13_loc_inner_finds_outer (st : LSt) (pre : Items) (r : Name) (hm : st.mom ≠ -1)
+    (hout : hasKey st.ltab (refName (execItems pre (pushFresh st)) r, st.mom) = true)
+    (hin : hasKey (execItems pre (pushFresh st)).ltab (refName (execItems pre (pushFresh st)) r, (st.cnt : Int)) = false) :
+    refKey (execItems pre (pushFresh st)) r = some (refName (execItems pre (pushFresh st)) r, st.mom) := by
+  have hfr := execItems_frame pre (pushFresh st)
+  have h1 : (execItems pre (pushFresh st)).mom = (st.cnt : Int) := hfr.mom
+  have h2 : (execItems pre (pushFresh st)).conts = st.mom :: st.conts := hfr.conts
+  have hout' : hasKey (execItems pre (pushFresh st)).ltab (refName (execItems pre (pushFresh st)) r, st.mom) = true := by
+    rw [execItems_hasKey]
+    have : (pushFresh st).ltab = st.ltab := rfl
+    rw [this, hout]
+    rfl
+  unfold refKey refSpace
+  have hne : (st.cnt : Int) ≠ -1 := by omega
+  unfold hasKey at hin hout'
+  rw [h1, h2]
+  simp only [hne, if_false]
+  cases hq : tfind (execItems pre (pushFresh st)).ltab (refName (execItems pre (pushFresh st)) r, (st.cnt : Int)) with
+  | some e => rw [hq] at hin; cases hin
+  | none =>
+    simp only [walkSpace, hm, if_false]
+    cases hq2 : tfind (execItems pre (pushFresh st)).ltab (refName (execItems pre (pushFresh st)) r, st.mom) with
+    | none => rw [hq2] at hout'; cases hout'
+    | some e => rfl
+
+/-! ### non-vacuity, and where the hypotheses are needed -/
+section RefineExamples
+def mk : Name := [109, 97, 114, 107]     -- "mark"
+def lq : Name := [108, 112]              -- "lp"
+/-- `mark equ 7` · `rept 2` { `dw lp` · `mark: nop` · `while` ×2 { `lp:` · `dw mark` · `dw lp` } · `dw mark` } ·
+macro call { `dw mark` · `lp:` } · `dw mark` -/
+def rprog : PItems :=
+  .cons (.op (.define mk 7 false))
+  (.cons (.con false false false 2
+      (.cons (.op (.use lq)) (.cons (.op (.label mk))
+        (.cons (.con false true false 2 (.cons (.op (.labelOnly lq)) (.cons (.op (.use mk)) (.cons (.op (.use lq)) .nil))))
+         (.cons (.op (.use mk)) .nil)))))
+  (.cons (.con true false false 1 (.cons (.op (.use mk)) (.cons (.op (.labelOnly lq)) .nil)))
+  (.cons (.op (.use mk)) .nil)))
+def rst1 : LSt := initPassL {} 0
+def rst2 : LSt := initPassL (exitPassL (execItems rprog.toModel rst1)) 0
+-- the hypotheses of `C13_loc_refines` hold at the start of the second pass …
+example : rst2.mom = -1 ∧ rst2.conts = [] ∧ rprog.ordinary false = true ∧ settled rprog.toModel rst2 = true ∧
+    (LocScope.expand (fold rst2.g.cs) (rprog.toSpec true)).2 = false := by decide
+-- … seven label spaces (the two spaces WHILE opened for its final conditions, handles 3 and 7, are not among them)
+example : openedItems rprog.toModel rst2 = [0, 1, 2, 4, 5, 6, 8] := by decide
+-- … and the run is not trivial: the second `dw mark` of the second REPT iteration finds `MARK` of space number 3 (handle 4)
+set_option maxRecDepth 4000 in
+example : ((traceItems rprog.toModel rst2).map (fun e => e.rkey))[18]? = some (some ([77, 65, 82, 75], 4)) := by decide
+set_option maxRecDepth 4000 in
+example : (((traceItems rprog.toModel rst2).map (render (openedItems rprog.toModel rst2)))[18]?).map (·.ref) =
+    some (some ([77, 65, 82, 75] ++ [35, 35] ++ [51])) := by decide
+-- the hypotheses of `C13_loc_refines_first_pass` hold for the same program in the first pass (no reference precedes its label)
+example : rst1.mom = -1 ∧ rst1.conts = [] ∧ rst1.ltab = [] ∧ rprog.ordinary false = true ∧ rprog.noHash = true ∧
+    (LocScope.expand (fold rst1.g.cs) (rprog.toSpec true)).2 = false ∧
+    ((LocScope.expand (fold rst1.g.cs) (rprog.toSpec true)).1.all (fun x => !x.2)) = true := by decide
+-- `C13_loc_settled_next_pass` / `C13_loc_refines_later_pass`: the state before the first pass
+example : ({} : LSt).conts = [] ∧ ({} : LSt).ltab = [] ∧
+    (LocScope.expand (fold ({} : LSt).g.cs) (rprog.toSpec true)).2 = false := by decide
+-- `C13_loc_numbering_faithful`: two different spaces of the run
+example : (1 : Int) ∈ openedItems rprog.toModel rst2 ∧ (4 : Int) ∈ openedItems rprog.toModel rst2 := by decide
+-- `C13_loc_iterations_disjoint` / `C13_loc_expansions_disjoint` / `C13_loc_not_visible_after`: a body with ordinary names, run
+-- from the start of a pass; it does enter keys
+def rbody : PItems := .cons (.op (.label mk)) (.cons (.op (.use mk)) .nil)
+example : rbody.ordinary true = true ∧ rst1.mom < (rst1.cnt : Int) ∧ (∀ h ∈ rst1.mom :: rst1.conts, h < (rst1.cnt : Int)) ∧
+    (PItem.con true false false 1 rbody).ordinary (rst1.mom != -1) = true := by decide
+example : keysItem (PItem.con true false false 1 rbody).toModel rst1 = [([77, 65, 82, 75], 0)] ∧
+    keysItem (PItem.con true false false 1 rbody).toModel (execItem (PItem.con true false false 1 rbody).toModel rst1) =
+      [([77, 65, 82, 75], 1)] := by decide
+-- hypotheses of the corollaries: a state inside a space, the name defined in the outer space only
+example : inside2.mom ≠ -1 ∧ (∀ h ∈ inside2.mom :: inside2.conts, h < (inside2.cnt : Int)) := by decide
+example : hasKey inside2.ltab (refName (execItems .nil (pushFresh inside2)) nm, inside2.mom) = true ∧
+    hasKey (execItems .nil (pushFresh inside2)).ltab (refName (execItems .nil (pushFresh inside2)) nm, (inside2.cnt : Int)) = false := by
+  decide
+
+/-- the witness of the known finding `forward-ref-in-macro-body-binds-outer-symbol-when-no-second-pass`:
+`mark equ 1111h` · macro call { `dw mark` · `mark: nop` } -/
+def fprog : PItems :=
+  .cons (.op (.define mk 0x1111 false))
+    (.cons (.con true false false 1 (.cons (.op (.use mk)) (.cons (.op (.label mk)) .nil))) .nil)
+def fst1 : LSt := initPassL {} 0
+end RefineExamples
+
+/-- **`settled` (`C13_loc_refines`) and "no reference flagged" (`C13_loc_refines_first_pass`) cannot be dropped**: first pass,
+local table empty; the reference `dw mark` in front of the body's own label `mark` is `MARK##0` in the SPEC's expansion (flag
+`true`), the model finds no local key for it (and takes the global `mark`); all other hypotheses of the two theorems hold -/
+theorem C13_loc_refines_hypothesis_needed :
+    fst1.mom = -1 ∧ fst1.conts = [] ∧ fst1.ltab = [] ∧ fprog.ordinary false = true ∧ fprog.noHash = true ∧
+      (LocScope.expand (fold fst1.g.cs) (fprog.toSpec true)).2 = false ∧ settled fprog.toModel fst1 = false ∧
+      ((traceItems fprog.toModel fst1).map (render (openedItems fprog.toModel fst1))).map (fun s => (s.label, s.ref)) ≠
+        ((LocScope.expand (fold fst1.g.cs) (fprog.toSpec true)).1.map (·.1)).map (fun s => (s.label, s.ref)) ∧
+      ((traceItems fprog.toModel fst1).map (·.rkey))[1]? = some none ∧
+      (((LocScope.expand (fold fst1.g.cs) (fprog.toSpec true)).1)[1]?).map (fun x => (x.1.ref, x.2)) =
+        some (some ([77, 65, 82, 75, 35, 35, 48]), true) := by decide
+
+/-- **the known finding, on the model**: nothing asks for a second pass, so the first pass is the last one and the code keeps
+the outer value `1111h` for the reference the SPEC binds to the expansion's own label (value 2) -/
+theorem C13_finding_forward_ref_in_macro_body :
+    (assembleL 9 {} 0 fprog.toModel).g.passNo = 1 ∧ Sym.hasError (assembleL 9 {} 0 fprog.toModel).g = false ∧
+      (assembleL 9 {} 0 fprog.toModel).g.out.reverse = [0x11, 0x11, 0xEA] ∧
+      tfind (assembleL 9 {} 0 fprog.toModel).ltab ([77, 65, 82, 75], 0) = some { val := 2, defined := true, changeable := false } := by
+  decide
+
+/-- **the proviso about `dynamic` cannot be dropped**: a macro whose body refers to a label of the loop body it is called
+from - the SPEC leaves the reference as written (and reports `dynamic`), the model finds the label of the calling body -/
+theorem C13_loc_refines_dynamic_hypothesis_needed :
+    let p : PItems := .cons (.con false false false 1
+      (.cons (.op (.labelOnly mk)) (.cons (.con true false false 1 (.cons (.op (.use mk)) .nil)) .nil))) .nil
+    let st := initPassL (exitPassL (execItems p.toModel (initPassL {} 0))) 0
+    settled p.toModel st = true ∧ (LocScope.expand (fold st.g.cs) (p.toSpec true)).2 = true ∧
+      ((traceItems p.toModel st).map (render (openedItems p.toModel st))).map (fun s => (s.label, s.ref)) ≠
+        ((LocScope.expand (fold st.g.cs) (p.toSpec true)).1.map (·.1)).map (fun s => (s.label, s.ref)) ∧
+      ((traceItems p.toModel st).map (·.rkey))[1]? = some (some ([77, 65, 82, 75], 0)) := by decide
+
+/-- **`ordinary` cannot be dropped**: a named temporary symbol `$$t` as a label in a loop body - `ChkTmp1` replaces the name
+by `t` + the hash of the last global label before the local machinery sees it; the SPEC of the label spaces does not speak
+about temporary symbols (the check answers `unspecified` for such programs) -/
+theorem C13_loc_refines_ordinary_hypothesis_needed :
+    let p : PItems := .cons (.con false false false 1 (.cons (.op (.labelOnly [36, 36, 116])) .nil)) .nil
+    let st := initPassL (exitPassL (execItems p.toModel (initPassL {} 0))) 0
+    p.ordinary false = false ∧ settled p.toModel st = true ∧ (LocScope.expand (fold st.g.cs) (p.toSpec true)).2 = false ∧
+      ((traceItems p.toModel st).map (render (openedItems p.toModel st))).map (fun s => (s.label, s.ref)) ≠
+        ((LocScope.expand (fold st.g.cs) (p.toSpec true)).1.map (·.1)).map (fun s => (s.label, s.ref)) ∧
+      ((traceItems p.toModel st).map (·.dkey))[0]? = some (some ([84, 1], 0)) := by decide
 
 end AslModel.SymLoc
